@@ -30,6 +30,14 @@ type SubSpec struct {
 	Gated       bool       `json:"gated,omitempty"`    // Send needs credit from grant steps (else it always passes)
 	PElement    bool       `json:"pelement,omitempty"` // the prefix uses the deprecated string elements
 	Deadline    bool       `json:"deadline,omitempty"` // the stream's context carries a (distant) RPC deadline
+	// First: what the client sends first instead of the well-formed request: "" (the request), "eof" (half-close
+	// before any request), "poll" (a Poll trigger), "noprefix" (a SubscriptionList without prefix), "notarget"
+	// (prefix without target), "empty" (a request with no arm). The RPC then ends at once: only the ACL clauses apply.
+	First string `json:"first,omitempty"`
+	// Dress: seed of the values given to the request fields the server does not implement (list: qos,
+	// allow_aggregation, use_models, encoding; per subscription: mode, sample_interval, suppress_redundant,
+	// heartbeat_interval - drawn independently per subscription). 0 = plain request.
+	Dress int `json:"dress,omitempty"`
 }
 
 // Upd is one update.
@@ -154,6 +162,7 @@ type profile struct {
 	bulkPct                int // percentage of writer notifications that carry a bulk run
 	bulkNs                 []int
 	viaPct                 int // percentage of scenarios in which writers also use another target's per-target entry point
+	firstPct               int // percentage of subscriptions whose first message is not the well-formed request
 }
 
 var profiles = map[string]profile{
@@ -165,7 +174,7 @@ var profiles = map[string]profile{
 		weights: map[string]int{"w": 6, "start": 6, "release": 3, "poll": 6, "eof": 2, "grant": 2, "drain": 2, "sleep": 2, "wrace": 2},
 		wkinds:  []string{"noti", "noti", "noti", "noti", "reset", "remove", "add"},
 		parks:   []string{"", "", "sub.walk.begin", "sub.walk.end", "coalesce.next.empty", "coalesce.next.empty"}},
-	"C07": {minTargets: 2, maxTargets: 4, modes: []string{"stream", "stream", "once", "poll"}, acl: true, gatedPct: 15, maxSteps: 30, maxSubs: 4, preload: 4, starPct: 60, pickPct: 30, timeout: true, bulkPct: 3, bulkNs: []int{5, 40, 70}, viaPct: 10,
+	"C07": {minTargets: 2, maxTargets: 4, modes: []string{"stream", "stream", "once", "poll"}, acl: true, gatedPct: 15, maxSteps: 30, maxSubs: 4, preload: 4, starPct: 60, pickPct: 30, timeout: true, bulkPct: 3, bulkNs: []int{5, 40, 70}, viaPct: 10, firstPct: 8,
 		weights: map[string]int{"w": 14, "start": 6, "release": 3, "relw": 2, "poll": 2, "grant": 2, "check": 2, "drain": 2, "sleep": 2, "aclflip": 2},
 		wkinds:  []string{"noti", "noti", "noti", "noti", "noti", "noti", "reset", "remove", "add"},
 		parks:   []string{"", "", "sub.registered", "sub.walk.begin"}},
@@ -201,7 +210,7 @@ func siblingOdds() int {
 func genElem(t *rapid.T, glob bool) gn.Elem {
 	alpha := []string{"a", "b", "c"}
 	if richNames {
-		alpha = []string{"a", "a", "ab", "a/b", "a1", "aé"}
+		alpha = []string{"a", "b", "ab", "a/b", "a1", "aé"}
 	}
 	if glob {
 		alpha = append(append([]string{}, alpha...), "*", "*")
@@ -356,14 +365,47 @@ func genSub(pr profile, targets, users int) func(t *rapid.T) SubSpec {
 				// every path names its own origin (or none)
 				p.Origin = rapid.SampledFrom([]string{"", "o", "openconfig"}).Draw(t, "path-origin")
 			}
+			if i > 0 && richNames && rapid.IntRange(0, 2).Draw(t, "twin") == 0 {
+				// a twin of the previous path: another path whose elements, joined with "/", read the same
+				if tw, ok := twinOf(s.Paths[i-1].Elems); ok {
+					p.Elems = tw
+				}
+			}
 			p.Element = rapid.IntRange(0, 9).Draw(t, "element") == 0
 			if len(p.Elems) == 0 && p.Origin == "" {
 				p.Unset = rapid.Bool().Draw(t, "unset")
 			}
 			s.Paths = append(s.Paths, p)
 		}
+		if pr.firstPct > 0 && rapid.IntRange(0, 99).Draw(t, "first") >= 100-pr.firstPct {
+			s.First = rapid.SampledFrom([]string{"eof", "poll", "noprefix", "notarget", "empty"}).Draw(t, "first-kind")
+		}
+		if rapid.IntRange(0, 2).Draw(t, "dressed") == 0 {
+			s.Dress = rapid.IntRange(1, 1<<20).Draw(t, "dress")
+		}
 		return s
 	}
+}
+
+// twinOf returns a path that differs from p but reads the same once its index strings are joined with "/":
+// an element "a/b" becomes the two elements a, b; two plain elements a, b become the one element "a/b";
+// a key value "1/0" becomes the key value 1 followed by an element 0.
+func twinOf(p []gn.Elem) ([]gn.Elem, bool) {
+	for i, e := range p {
+		if len(e.Keys) == 0 && e.Name == "a/b" {
+			out := append(append([]gn.Elem{}, p[:i]...), gn.Elem{Name: "a"}, gn.Elem{Name: "b"})
+			return append(out, p[i+1:]...), true
+		}
+		if i+1 < len(p) && len(e.Keys) == 0 && len(p[i+1].Keys) == 0 && e.Name == "a" && p[i+1].Name == "b" {
+			out := append(append([]gn.Elem{}, p[:i]...), gn.Elem{Name: "a/b"})
+			return append(out, p[i+2:]...), true
+		}
+		if e.Keys["k"] == "1/0" {
+			out := append(append([]gn.Elem{}, p[:i]...), gn.Elem{Name: e.Name, Keys: map[string]string{"k": "1"}}, gn.Elem{Name: "0"})
+			return append(out, p[i+1:]...), true
+		}
+	}
+	return nil, false
 }
 
 func genStep(pr profile, targets, nsubs int) func(t *rapid.T) Step {
@@ -657,7 +699,12 @@ func genHugeScenario(t *rapid.T) *Scenario {
 	sc.Steps = append(sc.Steps, Step{Kind: "w", W: &WOp{Kind: "noti", T: 0, Bulk: &Bulk{Start: 0, N: n, V: 1}}})
 	nsubs := rapid.IntRange(1, 2).Draw(t, "nsubs")
 	for i := 0; i < nsubs; i++ {
-		sc.Subs = append(sc.Subs, SubSpec{Mode: "stream", Target: rapid.IntRange(-1, 0).Draw(t, "target"), Gated: i == 0 || rapid.Bool().Draw(t, "gated"), Paths: []PathSpec{{}}})
+		// (ONCE and POLL too: their walk queues the whole target behind a sender that is blocked from the first response on)
+		mode := "stream"
+		if i == 0 {
+			mode = rapid.SampledFrom([]string{"stream", "once", "poll"}).Draw(t, "mode")
+		}
+		sc.Subs = append(sc.Subs, SubSpec{Mode: mode, Target: rapid.IntRange(-1, 0).Draw(t, "target"), Gated: i == 0 || rapid.Bool().Draw(t, "gated"), Paths: []PathSpec{{}}})
 		sc.Steps = append(sc.Steps, Step{Kind: "start", Sub: i})
 	}
 	switch rapid.IntRange(0, 2).Draw(t, "writer") {
